@@ -80,8 +80,16 @@ func (e *Engine) contractFor(fn *ssa.Function) *Contract {
 		}
 		m.Ensures = append(m.Ensures, own.Ensures...)
 		m.Tags = append(append([]string{}, ic.Tags...), own.Tags...)
+		m.Opts = map[string]string{}
+		for k, v := range ic.Opts {
+			m.Opts[k] = v
+		}
+		for k, v := range own.Opts {
+			m.Opts[k] = v
+		}
 		if !m.HasMod && ic.HasMod {
-			m.HasMod, m.Modifies = true, ic.Modifies
+			m.HasMod, m.Modifies, m.Writes = true, ic.Modifies, ic.Writes
+			m.Fresh = m.Fresh || ic.Fresh
 		}
 		res = &m
 	case own != nil:
@@ -479,6 +487,9 @@ func (fc *FnCtx) checkFrame() {
 	}
 	declared := map[string]bool{}
 	for _, h := range con.Modifies {
+		if i := strings.Index(h, "@"); i >= 0 {
+			h = h[:i]
+		}
 		declared[h] = true
 	}
 	for _, w := range con.Writes {
